@@ -316,6 +316,106 @@ def _possible_spreads(parent: int, frag: int, named: bool) -> bool:
     return result(ok, True)
 
 
+# ---- systematic placements: (violation atom) x (value context) x (selection context) x (sibling position).
+# Every rule is about one construct; where that construct sits (which fragment / inline fragment / operation, what
+# precedes or follows it, how deep inside a list or object literal) must not matter.
+U, V_, N = "UniqueInputFieldNamesChecker", "ValuesOfCorrectTypeChecker", "NoUndefinedVariablesChecker"
+
+
+def _bad_filter_values():
+    out = []
+    for key, v1, v2 in (("a", "1", "2"), ("sub", "{a: 1}", "{c: 2}")):
+        for f in ("c: 3", "sub: {a: 1}", "subs: [{a: 1}]", "b: [1]"):
+            k1, k2 = "%s: %s" % (key, v1), "%s: %s" % (key, v2)
+            for arr in ((k1, k2, f), (k1, f, k2), (f, k1, k2)):
+                out.append(("{%s}" % ", ".join(arr), U, "", True))
+    out += [("{nope: 1}", V_, "", True), ("{a: \"s\"}", V_, "", True), ("{b: [1, \"s\"]}", V_, "", True),
+            ("{a: $undef}", N, "", False), ("{a: $str}", "VariablesInAllowedPositionChecker", "$str: String", False),
+            ("{a: 1, c: 2}", None, "", True), ("{}", None, "", True), ("{b: 1, sub: {sub: {a: 1}}}", None, "", True)]
+    return out
+
+
+VALUE_CONTEXTS = ("%s", "{sub: %s}", "{subs: [%s]}", "{subs: %s}", "{subs: [{a: 1}, %s]}", "{subs: [%s, {a: 1}]}", "{a: 1, sub: %s}", "{sub: %s, a: 1}", "{sub: {sub: %s}}")
+
+SELECTION_ATOMS = (
+    ("me", "ScalarLeafsChecker", ""), ("n { x }", "ScalarLeafsChecker", ""), ("nope", "FieldsOnCorrectTypeChecker", ""),
+    ("me { nope }", "FieldsOnCorrectTypeChecker", ""), ("echo(nope: 1)", "KnownArgumentNamesChecker", ""),
+    ("echo(x: 1, x: 2)", "UniqueArgumentNamesChecker", ""), ("echo(x: 1, r: ADMIN, x: 2)", "UniqueArgumentNamesChecker", ""),
+    ("echo(x: \"s\")", V_, ""), ("echo(r: NOPE)", V_, ""), ("search(ids: [1, \"s\"])", V_, ""), ("search(ids: [[1]])", V_, ""),
+    ("n @nope", "KnownDirectivesChecker", ""), ("n @deprecated", "KnownDirectivesChecker", ""),
+    ("n @skip(if: true) @skip(if: false)", "UniqueDirectivesPerLocationChecker", ""),
+    ("n @include(if: true) @skip(if: true) @include(if: false)", "UniqueDirectivesPerLocationChecker", ""),
+    ("n @skip", "ProvidedRequiredArgumentsChecker", ""), ("n @skip(if: 1)", V_, ""), ("n @skip(if: $undef)", N, ""),
+    ("n @skip(if: $str)", "VariablesInAllowedPositionChecker", "$str: String"),
+    ("me { ... on Cat { name } }", "PossibleFragmentSpreadsChecker", ""), ("me { ... on Role { name } }", "FragmentsOnCompositeTypesChecker", ""),
+    ("me { ...Nope }", "KnownFragmentNamesChecker", ""), ("me { ... on Nope { name } }", "FragmentsOnCompositeTypesChecker", ""),   # unknown type conditions are reported there (DESIGN 8.3)
+   
+    ("me { a: name a: age }", "OverlappingFieldsCanBeMergedChecker", ""), ("echo(x: 1) echo(x: 2)", "OverlappingFieldsCanBeMergedChecker", ""),
+    ("x: n x: echo", "OverlappingFieldsCanBeMergedChecker", ""), ("me { name } me { name: age }", "OverlappingFieldsCanBeMergedChecker", ""),
+    ("echo(x: $undef)", N, ""), ("echo(x: $str)", "VariablesInAllowedPositionChecker", "$str: String"),
+    ("echo(x: $u)", "VariablesAreInputTypesChecker", "$u: User"), ("echo(x: $k)", "KnownTypeNamesChecker", "$k: Nope"),
+    ("n", "NoUnusedVariablesChecker", "$z: Int"), ("echo(x: $a)", "UniqueVariableNamesChecker", "$a: Int, $a: Int"),
+    ("echo(x: $i)", "ValuesOfCorrectTypeChecker", "$i: Int = \"s\""),
+    ("n", None, ""), ("echo(x: $i)", None, "$i: Int"), ("me { name ... on User { age } }", None, ""), ("echo(x: $i) @include(if: $b)", None, "$i: Int = 3, $b: Boolean!"),
+)
+
+
+def _atoms():
+    out = []
+    for text, rule, decl, const in _bad_filter_values():
+        for vc in VALUE_CONTEXTS:
+            out.append(("search(f: %s)" % (vc % text), rule, decl))
+            if const:
+                out.append(("search(f: $q)", rule, "$q: Filter = %s" % (vc % text)))
+    return tuple(out) + SELECTION_ATOMS
+
+
+ATOMS = _atoms()
+# %V = variable definitions of the operation the atom (transitively) belongs to; § = the atom with its siblings
+SELECTION_CONTEXTS = (
+    "query %V { § }",
+    "query %V { ... on Query { § } }",
+    "query %V { ... { § } }",
+    "query %V { ... @include(if: true) { ... on Query { § } } }",
+    "query %V { ...Q } fragment Q on Query { § }",
+    "fragment Q on Query { § } query %V { ...Q }",
+    "query %V { ...Q } fragment Q on Query { ...R } fragment R on Query { § }",
+    "fragment R on Query { § } fragment Q on Query { ... on Query { ...R } } query %V { __typename ...Q }",
+    "query A { n } query B %V { § }",
+    "query B %V { § } query A { n }",
+    "query A %V { ...Q } query B %V { n ...Q } fragment Q on Query { § }",
+)
+SIBLINGS = ("%s", "__typename %s", "%s __typename", "zz: n %s yy: n")
+_BASE_RULES = {}
+
+
+def placement_text(A_, C, P):
+    text, rule, decl = ATOMS[A_]
+    return SELECTION_CONTEXTS[C].replace("%V", "(%s)" % decl if decl else "").replace("§", SIBLINGS[P] % text)
+
+
+def _placements(atom: int, ctx: int, pos: int) -> bool:
+    """
+    pre: 0 <= atom < len(ATOMS) and 0 <= ctx < len(SELECTION_CONTEXTS) and 0 <= pos < len(SIBLINGS)
+    pre: thorough() or ctx == 0 or pos == 0
+    pre: shard_of(atom)
+    post: _
+    """
+    A_ = concrete_int(atom, 0, len(ATOMS) - 1)
+    C = concrete_int(ctx, 0, len(SELECTION_CONTEXTS) - 1)
+    P = concrete_int(pos, 0, len(SIBLINGS) - 1)
+    with untraced():
+        rule = ATOMS[A_][1]
+        if A_ not in _BASE_RULES:
+            _BASE_RULES[A_] = violated_rules(parse(placement_text(A_, 0, 0)))[0]
+        rules, verdict = violated_rules(parse(placement_text(A_, C, P)))
+        if rule is None:
+            ok = verdict and not rules
+        else:
+            ok = (not verdict) and rule in rules and rules == _BASE_RULES[A_]
+    return result(ok, rule is not None)
+
+
 CONDITIONS = [
     Cond(
         name="metamorphic", fn=_metamorphic, quick=150, thorough=900, per_path=60, shards_quick=16, shards_thorough=30,
@@ -327,6 +427,11 @@ CONDITIONS = [
     ),
     Cond(name="mutants", fn=_mutants, quick=60, thorough=120, bound="%d single-rule mutants (every one of the 26 rules at least once) x 8 reorderings: reported by the rule it breaks" % len(MUTANTS),
          symbolic={"m": "choice: mutant", "mask": "choice: reorderings"}, witness={"m": 0, "mask": 0}),
+    Cond(name="placements", fn=_placements, quick=200, thorough=900, per_path=60, shards_quick=16, shards_thorough=32,
+         bound="%d atoms (one rule violation each, or a valid control; input-object violations in %d nesting contexts, also as variable defaults) x %d selection contexts (operation, typed / untyped / directive inline fragment, "
+               "named fragments before / after / nested / shared, second operation) x %d sibling positions (quick: context or position fixed to the first): the rule reports, the verdict is invalid and the reported rule set "
+               "equals that of the plain placement; controls stay valid" % (len(ATOMS), len(VALUE_CONTEXTS), len(SELECTION_CONTEXTS), len(SIBLINGS)),
+         symbolic={"atom": "choice: violation", "ctx": "choice: selection context", "pos": "choice: siblings"}, witness={"atom": 2, "ctx": 4, "pos": 1}),
     Cond(name="cycles", fn=_cycles, quick=100, thorough=300, shards_quick=8, shards_thorough=8, per_path=60,
          bound="EVERY directed spread graph on 3 fragments (512 adjacency matrices incl. self loops) x all 6 definition orders: NoFragmentCycles reports iff some fragment reaches itself",
          symbolic={"adj": "choice: adjacency matrix", "order": "choice: definition order"}, witness={"adj": 2, "order": 0}),
